@@ -48,3 +48,5 @@ LEVEL_TEXT = ("Theorems in coq/Props/C09.v hold for every node state and every d
               "records that carry a decodable address, filtered, for keys of 1-80 bytes; no request panics.")
 LEVEL_NOTE = ("Partial: proved for structurally valid (decoded) requests; byte-level decoding is trusted and exercised. Proof is about the Gallina model; "
               "the tie to the Go code is the correspondence run. Trusted: Coq kernel, vm_compute, harness, kbucket NearestPeers, protobuf, msgio.")
+
+RULE = RULE + (' PUT_VALUE: the validator prefers a stored record marked ok-best to an unmarked incoming one; 30% of the PUT_VALUE requests (and four directed cases) address a key the node holds such a record for, mostly carrying stuffed closer / provider peer records: the put is refused (stream reset), never echoed.')
